@@ -93,10 +93,22 @@ def check_incoming(case):
     if S.canon(node) != before:
         return [("C09:%s:from-mutates-stanza" % cls, "%s.fromProtocolTreeNode modified the incoming stanza" % cls,
                  case.key, dict(detail, after=S.render(node)))], False, "mutated"
+    pre = []
+    if shape.inspect is not None:
+        # entity level: the accessors of the entity (per-item ones included) must say what the stanza says
+        try:
+            for field, want, have in shape.inspect(ent, node):
+                pre.append(("C09:%s:entity-field:%s" % (cls, field.split("[")[0]),
+                            "%s built from a stanza of the documented shape: %s is %r, the stanza says %r"
+                            % (cls, field, have, want), case.key, dict(detail, field=field, expected=want, observed=have)))
+        except Exception as e:
+            pre.append(("C09:%s:raises:accessors:%s" % (cls, exc_name(e)),
+                        "%s: reading the accessors of the entity built from an incoming stanza raises %s" % (cls, brief(e)),
+                        case.key, dict(detail, raised=brief(e), at=_where(e))))
     try:
         out = ent.toProtocolTreeNode()
     except Exception as e:
-        return [("C09:%s:raises:toProtocolTreeNode:%s" % (cls, exc_name(e)),
+        return pre + [("C09:%s:raises:toProtocolTreeNode:%s" % (cls, exc_name(e)),
                  "%s: re-serialising the entity built from an incoming stanza raises %s" % (cls, brief(e)),
                  case.key, dict(detail, raised=brief(e), at=_where(e)))], False, "raise-to"
     if not isinstance(out, ProtocolTreeNode):
@@ -105,7 +117,7 @@ def check_incoming(case):
     exp = S.apply_defaults(node, case.defaults)
     got = S.apply_defaults(out, case.defaults)
     diffs = S.strict_diff(exp, got, numeric=True, group_by_tag=True)
-    vs = []
+    vs = list(pre)
     for kind, path, attr, want, have in diffs:
         if kind == "data-altered" and path.endswith("/proto") and proto_equivalent(want, have):
             continue
@@ -252,7 +264,8 @@ def run_shape(arg):
     nviol = 0
     nparts = 0
     sample = None
-    for mask_vec in [(c.mask, c.vector, c.phase, c.skew) for c in S.gen_cases(name, True, vectors, phases, skews)]:
+    for mask_vec in [(c.mask, c.vector, c.phase, c.skew, c.plan)
+                     for c in S.gen_cases(name, True, vectors, phases, skews, plans="all")]:
         env.reset_ids()
         case = S.build_case(name, *mask_vec)       # built after the id reset: ids generated by constructors are stable
         nparts = case.nparts
@@ -272,7 +285,8 @@ def run_shape(arg):
 
 
 def run(ctx):
-    # 6 vectors: every slot takes every value of its kind's alphabet (lengths 1, 2, 3, 6) under every subset
+    # 6 vectors: every slot takes every value of its kind's alphabet (lengths 1, 2, 3, 6) under every subset;
+    # list plans (nested / sibling lists with different lengths per item) are enumerated in both tiers
     vectors = 6
     phases = (0,) if ctx.quick else (0, 1, 2)
     skews = (1,) if ctx.quick else (1, 5, 7)    # coprime with the alphabet lengths that need distinct values
@@ -307,9 +321,14 @@ def run(ctx):
                 "produced and pushed through the real encoder (outgoing), i.e. the oracle comparison was reached",
         "exhaustive": True,
         "bound": "every shape: all 2^k subsets of its k optional parts x max(%d, widest choice) value vectors "
+                 "x list plans %s (both tiers, shapes with lists: nested lists get 2 and 3 outer items with different inner "
+                 "lists per item, sibling lists different lengths, all values distinct) "
                  "x list-length phases %s x slot skews %s; slot j of a kind takes alphabet[(v+j*skew) mod len], so "
-                 "every slot takes every value of its alphabet under every subset; lists have 1,2,0 items; the "
-                 "full product of values is not enumerated" % (vectors, list(phases), list(skews)),
+                 "every slot takes every value of its alphabet (alphabets of <= 6 entries; the longer ones - ujid, gjid, id, "
+                 "number, key32 - only supply distinct values of one class) under every subset; lists have 1,2,0 "
+                 "items in plan 0; entity-level accessors are compared with the stanza for %d shapes; the "
+                 "full product of values is not enumerated" % (vectors, S.LIST_PLANS, list(phases), list(skews),
+                                                           sum(1 for x in S.SHAPES.values() if x.inspect)),
         "shapes": len(results),
         "shapes_incoming": sum(1 for r in results if r["direction"] == "incoming"),
         "shapes_outgoing": sum(1 for r in results if r["direction"] == "outgoing"),
@@ -333,6 +352,7 @@ def run(ctx):
 def replay(ctx, case):
     prepare()
     env.reset_ids()
-    c = S.build_case(case["shape"], case["mask"], case["vector"], case.get("phase", 0), case.get("skew", 1))
+    c = S.build_case(case["shape"], case["mask"], case["vector"], case.get("phase", 0), case.get("skew", 1),
+                     case.get("plan", 0))
     vs, _, _ = check_case(c)
     return vs
